@@ -23,7 +23,7 @@
 *)
 EXTENDS Integers, Sequences, FiniteSets, TLC, Json, SequencesExt, FiniteSetsExt
 
-CONSTANTS N, NOrig, NLoc, MaxLevel, Typed, MaxSet, NBlk
+CONSTANTS N, NOrig, NLoc, MaxLevel, Typed, MaxSet, NBlk, BlkGrid
 
 Node  == 1..N
 Orig  == 1..NOrig
@@ -34,12 +34,12 @@ vars == <<parent, kids, loc, att, live, orig>>
 
 (* ---------- static attributes, inherited by copies through orig ---------- *)
 FlagsOf(n) == LET o == orig[n] IN (IF o % 2 = 1 THEN {"A"} ELSE {}) \cup (IF (o \div 2) % 2 = 1 THEN {"B"} ELSE {})
-TypeOf(n)  == IF orig[n] % 3 = 0 THEN "t0" ELSE IF orig[n] % 3 = 1 THEN "t1" ELSE "t2"
+TypeOf(n)  == IF orig[n] % 3 = 0 THEN "t1x" ELSE IF orig[n] % 3 = 1 THEN "t1" ELSE "t2"
 
 \* typed mode (HexAssembly / HexBlock / Circle): original 1 is the assembly, 2..1+NBlk are blocks, the rest components
 Kind(n) == IF ~Typed THEN "gen" ELSE LET o == orig[n] IN IF o = 1 THEN "asm" ELSE IF o <= 1 + NBlk THEN "blk" ELSE "cmp"
 Fits(p, c) == ~Typed \/ (Kind(p) = "asm" /\ Kind(c) = "blk") \/ (Kind(p) = "blk" /\ Kind(c) = "cmp")
-HasGrid(n) == ~Typed \/ Kind(n) = "asm"      \* objects that own a spatialGrid
+HasGrid(n) == ~Typed \/ Kind(n) = "asm" \/ (BlkGrid /\ Kind(n) = "blk")   \* objects that own a spatialGrid (BlkGrid: blocks carry a pin lattice)
 Places(p)  == Typed /\ Kind(p) = "asm"        \* Assembly.add places the block and re-establishes the block order
 SortKey(n) == IF Kind(n) = "cmp" THEN orig[n] ELSE loc[n]   \* Component.__lt__ orders by bounding circle (grows with orig id)
 
@@ -156,7 +156,8 @@ SetChildren(p, s) ==
     /\ UNCHANGED <<live, orig>> /\ Ok([n |-> "SetChildren", p |-> p, s |-> s])
 
 MoveTo(c, i) ==
-    /\ ~Typed /\ c \in live /\ parent[c] # 0 /\ (loc[c] # i \/ ~att[c])
+    \* typed mode: components are placed on their block's pin lattice (index 1 stands for a multi-cell locator)
+    /\ (~Typed \/ (BlkGrid /\ Kind(c) = "cmp")) /\ c \in live /\ parent[c] # 0 /\ (loc[c] # i \/ ~att[c])
     /\ loc' = [loc EXCEPT ![c] = i] /\ att' = [att EXCEPT ![c] = TRUE]
     /\ UNCHANGED <<parent, kids, live, orig>> /\ Ok([n |-> "MoveTo", c |-> c, i |-> i])
 
@@ -195,7 +196,7 @@ Copy(n, how) ==
 
 \* Block.replaceBlockWithBlock(t): the receiver's children are replaced by the children of a private deep copy of t
 Replace(b, t) ==
-    /\ Typed /\ b \in live /\ t \in live /\ b # t /\ Kind(b) = "blk" /\ Kind(t) = "blk"
+    /\ Typed /\ ~BlkGrid /\ b \in live /\ t \in live /\ b # t /\ Kind(b) = "blk" /\ Kind(t) = "blk"
     /\ Len(kids[t]) <= Cardinality(FreeIds)
     /\ LET free == SetToSeqSorted(FreeIds)
            k    == Len(kids[t])
